@@ -29,6 +29,9 @@ UNIT = {"memset_s": 1, "memzero_s": 1, "memset16_s": 2, "memset32_s": 4, "memzer
 STORAGES = ["stack", "heap", "static", "stack-noescape"]   # index = vparam.storage in spy.c
 ESCAPING = ["stack", "heap", "static"]   # the victim hands the buffer address to the spy TU before erasing
 NOESC = "stack-noescape"                 # the address goes to the erase function only; the spy finds the dead frame by a stack scan
+HUGE_LO, HUGE_HI = 4096, 12288           # 'huge' non-escaping targets: block-size thresholds inside the library's set primitives
+SCAN_BYTES = 32768                       # stack bytes below the caller's pad that the spy copies and scans (spy.c C18_SCAN)
+SOLO_PROGRAMS = {"quick": 0, "thorough": 0}   # single-call-site programs per tier (see gen_program(solo=True))
 NOESC_MIN = 16                           # the scan recognises runs of >= 8 pattern bytes; targets are at least one 16-byte block
 SHAPES = ["direct", "helper", "struct"]
 
@@ -71,18 +74,57 @@ def gen_bytes(rng, cls):
     return rng.randint(24, 300)
 
 
-def gen_program(rng, slack):
+def gen_huge(rng, kind):
+    """target sizes of the 'huge' non-escaping victims, 4096..12288 bytes"""
+    if kind == 0:
+        return HUGE_LO
+    if kind == 1:
+        return HUGE_LO + 1
+    n = rng.randint(HUGE_LO + 2, HUGE_HI)
+    if kind == 2 and n % 8 == 0:
+        n -= rng.randint(1, 7)
+    return n
+
+
+def gen_program(rng, slack, pi=0, solo=False):
     """one client program: for every (erase function x storage x size class) one
     victim and its plain-memset twin: 7 x 3 x 2 = 42 address-escaping victims + 42 controls, then (ids after them, so
     the first 84 are what earlier versions generated from the same seed) 7 x 2 = 14 non-escaping stack victims + 14
-    controls. Returns the list of victim parameter dicts."""
+    controls, then 4 + 4 'huge' non-escaping ones (>= 4096 bytes: memset_s, memzero_s and two of the 16/32-bit
+    functions; program number pi rotates memset_s/memzero_s through exactly 4096, 4097, a non-multiple of 8 and a
+    random size). Returns the list of victim parameter dicts.
+
+    solo=True: a small program of 7 non-escaping victims + 7 controls in which every erase function has exactly ONE
+    call site (4 huge targets, 3 of the 'large' class), so that whole-program optimisers inline the library code into
+    the victim ("called once") even where they would not do so in the 60-victim program."""
     vs = []
-    cells = [(fn, st, cls) for fn in FUNCS for st in ESCAPING for cls in ("small", "large")]
-    cells += [(fn, NOESC, cls) for fn in FUNCS for cls in ("small", "large")]
-    for fn, st, cls in cells:
+    def cells():   # lazily: the rng draws for the huge cells come after everything earlier versions drew
+        if solo:
+            huge = ["memset_s", "memzero_s"] + rng.sample(["memset16_s", "memset32_s", "memzero16_s", "memzero32_s"], 2)
+            for fn in FUNCS:
+                yield fn, NOESC, ("huge" if fn in huge else "large")
+            return
+        for fn in FUNCS:
+            for st in ESCAPING:
+                for cls in ("small", "large"):
+                    yield fn, st, cls
+        for fn in FUNCS:
+            for cls in ("small", "large"):
+                yield fn, NOESC, cls
+        for fn in ["memset_s", "memzero_s"] + sorted(rng.sample(["memset16_s", "memset32_s", "memzero16_s", "memzero32_s"], 2)):
+            yield fn, NOESC, "huge"
+    for fn, st, cls in cells():
         if True:
             unit = UNIT[fn]
-            nbytes = gen_bytes(rng, cls)
+            if cls == "huge":
+                if fn == "memset_s":
+                    nbytes = gen_huge(rng, pi % 4)
+                elif fn == "memzero_s":
+                    nbytes = gen_huge(rng, (pi + 1) % 4)
+                else:
+                    nbytes = HUGE_LO if rng.random() < 0.3 else gen_huge(rng, 3)
+            else:
+                nbytes = gen_bytes(rng, cls)
             if st == NOESC and nbytes < NOESC_MIN:
                 nbytes += NOESC_MIN
             count = max(1, nbytes // unit)
@@ -234,7 +276,7 @@ def noescape_victim(v):
 
 
 def params_header(vs):
-    o = ["/* generated */", "#define NV %d" % len(vs), "static const struct vparam c18_params[NV] = {"]
+    o = ["/* generated */", "#define NV %d" % len(vs), "#define C18_SCAN %d" % SCAN_BYTES, "static const struct vparam c18_params[NV] = {"]
     for v in vs:
         o.append("    {%d, %d, %d, %d, %d, %d, %d, %uu, %d, %d}," %
                  (v["id"], STORAGES.index(v["storage"]), v["control"], v["total"], v["lead"], v["len"], v["unit"],
@@ -334,8 +376,8 @@ def judge(c, vs, res):
             verdict["detail"] = ("%d bytes of the secret pattern (runs of >= 8 consecutive pattern bytes, first run %d bytes below the "
                                  "caller's frame) are still in the dead stack frame after %s returned 0; the %d-byte local buffer (object "
                                  "offset %d) was filled and read at run time, its address was passed to %s only; found by a scan of the "
-                                 "4096 bytes below the caller, config %s; control memset residual=%d" %
-                                 (r["bad"], -r["firstbad"], v["fn"], v["nbytes"], v["lead"], v["fn"], cfg_name(c), cr["residual"]))
+                                 "%d bytes below the caller, config %s; control memset residual=%d" %
+                                 (r["bad"], -r["firstbad"], v["fn"], v["nbytes"], v["lead"], v["fn"], SCAN_BYTES, cfg_name(c), cr["residual"]))
         elif r["bad"] > 0:
             verdict["cls"] = "violation"
             verdict["key"] = "%s:%s:not-erased:%s" % (PROP, v["fn"], v["storage"])
@@ -454,7 +496,9 @@ def main():
 
     rng = random.Random(seed)
     nprog = 3 if a.tier == "quick" else 16
-    programs = [gen_program(rng, slack) for _ in range(nprog)]
+    programs = [gen_program(rng, slack, pi) for pi in range(nprog)]
+    nsolo = SOLO_PROGRAMS[a.tier]
+    programs += [gen_program(rng, slack, pi + 1, solo=True) for pi in range(nsolo)]   # pi + 1: the quick tier's one has n = 4097 for memset_s
     rtseed = rng.randrange(1, 1 << 31)
     configs = all_configs()
     with ThreadPoolExecutor(min(16, os.cpu_count() or 4)) as ex:
@@ -563,19 +607,26 @@ def main():
               "(storage stack/heap/static: the buffer address is handed to the non-LTO spy TU, which fills it and reads the n bytes back "
               "after the victim died) and NON-ESCAPING (storage stack-noescape: a local array the victim fills itself from a run-time "
               "16-byte pattern and reads back, whose address is passed to the erase function only; the spy finds the dead frame by "
-              "scanning the 4096 stack bytes below the caller for runs of >= 8 pattern bytes). For both kinds a case is NON-TRIVIAL iff "
+              "scanning the 32768 stack bytes below the caller for runs of >= 8 pattern bytes; 4 of them per program have targets of 4096..12288 bytes). For both kinds a case is NON-TRIVIAL iff "
               "the config optimises (>= -O1) and the victim's plain-memset twin in the same binary was observed with residual secret "
               "bytes, i.e. the compiler demonstrably removes a non-secure erase there (for non-escaping victims additionally both twins' "
               "read-back checksums must have arrived, i.e. the buffer was really filled and used); "
               "distinct = distinct (config, function, storage, shape, n, dmax, offset, value)"),
         samples=samples if samples else [dict(note="no non-trivial case this run")],
         exhaustive=False,
-        exhaustive_note="sampled: %d generated program(s) x %d build configs; nothing is enumerated completely" % (nprog, len(configs)),
-        programs=nprog, victims_per_program=len(programs[0]) // 2, controls_per_program=len(programs[0]) // 2,
+        exhaustive_note="sampled: %d generated program(s) + %d single-call-site program(s) x %d build configs; nothing is enumerated completely" % (nprog, nsolo, len(configs)),
+        programs=nprog, solo_programs=nsolo, victims_per_solo_program=(len(programs[-1]) // 2 if nsolo else 0),
+        solo_program_note="a solo program has one non-escaping victim (+ control) per erase function, i.e. a single call site per library function, so LTO inlines it",
+        victims_per_program=len(programs[0]) // 2, controls_per_program=len(programs[0]) // 2,
         victims_per_program_escaping=esc, victims_per_program_nonescaping=nesc,
         controls_per_program_escaping=esc, controls_per_program_nonescaping=nesc,
         nontrivial_escaping=cls_hist.get("pass-nontrivial", 0) - ne_nontrivial, nontrivial_nonescaping=ne_nontrivial,
         nontrivial_nonescaping_lto=ne_nontrivial_lto,
+        victims_per_program_nonescaping_4k=len([v for v in programs[0] if v["sizeclass"] == "huge" and not v["control"]]),
+        nonescaping_4k_sizes=sorted({v["nbytes"] for p in programs for v in p if v["sizeclass"] == "huge" and not v["control"]}),
+        nontrivial_nonescaping_4k=len([v for v in allv if v["cls"] == "pass-nontrivial" and programs[v["program"]][v["id"]]["sizeclass"] == "huge"]),
+        nontrivial_nonescaping_4k_lto=len([v for r in results if r["config"]["link"] == "lto" for v in r["verdicts"]
+                                           if v["cls"] == "pass-nontrivial" and programs[v["program"]][v["id"]]["sizeclass"] == "huge"]),
         trivial_void_controls_nonescaping=by_storage.get(NOESC, {}).get("pass-void-control", 0),
         configs=len(configs), per_config=per_cfg, class_histogram=cls_hist, by_storage=by_storage,
         nontrivial_by_function=by_fn,
@@ -588,7 +639,7 @@ def main():
         "x86-64 Linux, glibc malloc (a freed tcache/unsorted chunk keeps its bytes beyond the first 32), gcc 12 and clang 14 only",
         "'any optimisation level' is the matrix {gcc,clang} x {-O0,-O1,-O2,-O3,-Os} x {separately compiled objects, library sources compiled into the program with -flto}",
         "the spy TU is compiled -O0 without LTO and copies the dead buffer immediately after the victim returns, with no intervening call",
-        "non-escaping stack victims: the dead frame is found without its address, by copying the 4096 bytes directly below a 64 KiB alloca pad of the (-O0, non-LTO) caller right after the victim returned (frames and red zone of the victim lie there) and counting runs of >= 8 consecutive bytes of that victim's own 16-byte pattern (16 distinct non-zero bytes, fresh per victim, kept in volatile static storage only); erasures that leave fewer than 8 consecutive pattern bytes are invisible to this channel (the escaping victims compare every byte), as are copies the compiler keeps in registers",
+        "non-escaping stack victims: the dead frame is found without its address, by copying the 32768 bytes directly below a 64 KiB alloca pad of the (-O0, non-LTO) caller right after the victim returned (frames and red zone of the victim lie there) and counting runs of >= 8 consecutive bytes of that victim's own 16-byte pattern (16 distinct non-zero bytes, fresh per victim, kept in volatile static storage only); erasures that leave fewer than 8 consecutive pattern bytes are invisible to this channel (the escaping victims compare every byte), as are copies the compiler keeps in registers",
         "file-static victims: the address escapes to the spy, so compilers keep even a plain memset; those cases are checked but counted as void controls, not as non-trivial",
         "memzero_s delegates to glibc explicit_bzero when HAVE_EXPLICIT_BZERO is configured; that libc code is outside LTO",
     ]
@@ -609,10 +660,10 @@ def main():
     for r in broken:
         if "status" in r:
             print("BROKEN: config %s: %s" % (cfg_name(r["config"]), r["err"]))
-    print("%s %s: %d configs x %d program(s) of %d escaping + %d non-escaping victims, %d victim evaluations, %d distinct non-trivial "
+    print("%s %s: %d configs x (%d program(s) of %d escaping + %d non-escaping victims + %d single-call-site program(s) of 7 non-escaping), %d victim evaluations, %d distinct non-trivial "
           "(%d non-escaping evaluations non-trivial, %d of them LTO), %d void controls, %d unobservable, "
           "%d known-finding hits, %d new violation keys, %.1fs" %
-          (PROP, a.tier, len(configs), nprog, esc, nesc, len(allv), len(distinct), ne_nontrivial, ne_nontrivial_lto,
+          (PROP, a.tier, len(configs), nprog, esc, nesc, nsolo, len(allv), len(distinct), ne_nontrivial, ne_nontrivial_lto,
            cov["trivial_void_controls"], cov["unobservable"],
            sum(known_hits.values()), nviol, time.time() - t0))
     if not a.keep:
